@@ -8,6 +8,6 @@ e = {"property": prop, "status": status, "signature": sig, "what": what}
 if status == "fixed":
     e["commit"] = commit
     e["line"] = "fixed: property=%s %s %s" % (prop, commit, what)
-d["findings"] = [x for x in d["findings"] if not (x["property"] == prop and x["signature"] == sig)] + [e]
+d["findings"] = [x for x in d["findings"] if not (x["property"] == prop and x["signature"] == sig and x.get("commit") == e.get("commit"))] + [e]
 json.dump(d, open(p, "w"), indent=1)
 print("ok", len(d["findings"]))
